@@ -43,8 +43,9 @@ Definition tgt_char_ok (us : char -> bool) (c : char) : bool :=
 Definition dep_char_ok (us : char -> bool) (c : char) : bool :=
   if dep_special us c then dep_unesc c else negb (dep_stop c || dep_unesc c).
 Definition no_lead_tilde (s : str) : bool := match s with c :: _ => negb (N.eqb c c_tilde) | [] => false end.
-Definition no_trail_blank (s : str) : bool := match rev s with c :: _ => negb (is_mk_blank c) | [] => false end.
+Definition no_trail_blank (s : str) : bool :=
+  match rev s with c :: _ => negb (is_mk_blank c || N.eqb c c_amp) | [] => false end.
 Definition target_ok (us : char -> bool) (s : str) : bool :=
-  no_bs s && forallb (tgt_char_ok us) s && no_lead_tilde s.
+  no_bs s && forallb (tgt_char_ok us) s && no_lead_tilde s && no_trail_blank s.
 Definition dep_ok (us : char -> bool) (s : str) : bool :=
-  no_bs s && forallb (dep_char_ok us) s && no_lead_tilde s.
+  no_bs s && forallb (dep_char_ok us) s && no_lead_tilde s && no_trail_blank s.
